@@ -22,11 +22,18 @@ def run(chk):
               "grid's own face/centre values with the grid's own arc lengths)")
     chk.assume("ShiftAngle = 2 pi q for the circular equilibrium is checked numerically, not proved")
     chk.coq()
+    # the quadrature itself: theories/Model_Quadrature.v (PrimFloat instance) against the real calcZShift on stub regions (whole pipeline:
+    # calcDistance, getDistance, integrand, cumulative_trapezoid, shift, interp1d, accumulation, hand-over, ShiftAngle)
+    from props import quad
+    chk.trust("hand model theories/Model_Quadrature.v of MeshRegion.calcZShift (integrand, scipy cumulative_trapezoid, shift to startInd, scipy interp1d = numpy.interp "
+              "with bounds_error, accumulation, hand-over along the y-group, ShiftAngle), run bit for bit (binary64) against the real method on stub regions on every run")
+    qc = quad.correspondence(chk, 120 if chk.tier == "quick" else 1500, ["zshift"], "zshift")
+    nq = len(qc[0]) if qc else 0
     # an option that only C06's relations can be checked under (it deliberately modifies Bpxy at the y-faces next to an X-point, so the field
     # oracles of other properties do not apply): dphidy must be computed from the Bpxy that is written to the file.  Needs Bp > 0 for the cap to act.
     extra = [corpus.tok("lsn_neg_capBp", "lsn", corpus.SN, sign=-1.0, options=dict(cap_Bp_ylow_xpoint=True), must_build=True)]
     grids = corpus.get(tier=chk.tier, extra_cfgs=extra)
-    n = 0
+    n = nq
     worst = {}
     for g in grids:
         if not g.ok:
@@ -84,7 +91,11 @@ def run(chk):
             for loc in ("ylow", "corners"):
                 j0 = myg if (not periodic and first["connections"]["lower"] is None) else 0
                 z0 = first["arrays"]["zShift"][loc][:, j0]
-                if np.max(np.abs(z0)) > 1e-12:
+                # the value there is slope * (distance of the first contour point - distance of the fine contour's startInd): zero up to
+                # the rounding of FineContour.getDistance times the local Bt/(R Bp), which is large next to an X-point
+                # (theories/Model_Quadrature.v; 4e-12 observed on a non-orthogonal double null).  A start that is not the origin of
+                # the integral is off by a whole cell's increment.
+                if np.max(np.abs(z0)) > 1e-9 * max(1.0, float(np.nanmax(np.abs(first["arrays"]["zShift"]["centre"])))):
                     chk.fail("zShift:origin", "zShift is not zero at the start of its chain of y-connected regions (target face / first core cell)",
                              {"grid": g.name, "region": first["name"], "loc": loc, "value": float(np.max(np.abs(z0)))})
                 for a, b in zip(grp[:-1], grp[1:]):
